@@ -119,9 +119,9 @@ def main():
         sys.exit(replay(harness.load_replay(args.replay)))
     t0 = time.time()
     ops = H.operations()
-    masks = [0x7FF, 0]
+    masks = [0x7FF, 0] + [1 << k for k in range(11)] + [0x7FF ^ 1]
     if args.thorough:
-        masks += [1 << k for k in range(11)] + [(1 << a) | (1 << b) for a, b in itertools.combinations(range(11), 2)]
+        masks += [(1 << a) | (1 << b) for a, b in itertools.combinations(range(11), 2)] + [0x7FF ^ (1 << k) for k in range(1, 11)]
     items = [("step", i, m) for i in range(len(ops)) for m in masks]
     hl = 4 if args.thorough else 3
     items += [("hist", f, hl, args.seed) for f in HIST_OPS]
